@@ -2125,32 +2125,43 @@ type cellUse struct {
 // captured variable) into which v is the only value stored.
 func usesThroughCells(v ssa.Value) []cellUse {
 	var out []cellUse
-	if v.Referrers() == nil {
-		return nil
-	}
-	for _, ref := range *v.Referrers() {
-		out = append(out, cellUse{ref, v})
-		st, ok := ref.(*ssa.Store)
-		if !ok || st.Val != v {
+	seen := map[ssa.Value]bool{}
+	work := []ssa.Value{v}
+	for len(work) > 0 {
+		cur := work[len(work)-1]
+		work = work[:len(work)-1]
+		if seen[cur] || cur.Referrers() == nil {
 			continue
 		}
-		al, ok := st.Addr.(*ssa.Alloc)
-		if !ok {
-			continue
-		}
-		only := true
-		for _, r2 := range *al.Referrers() {
-			if s2, isSt := r2.(*ssa.Store); isSt && s2.Addr == ssa.Value(al) && s2 != st {
-				only = false
-			}
-		}
-		if !only {
-			continue
-		}
-		for _, r2 := range *al.Referrers() {
-			if ld, isLd := r2.(*ssa.UnOp); isLd && ld.Op == token.MUL && ld.Referrers() != nil {
-				for _, r3 := range *ld.Referrers() {
-					out = append(out, cellUse{r3, ld})
+		seen[cur] = true
+		for _, ref := range *cur.Referrers() {
+			out = append(out, cellUse{ref, cur})
+			switch x := ref.(type) {
+			case *ssa.Phi:
+				// a merge with the outcomes of other paths (the error path yields nil): the value
+				// goes on under the phi's name
+				work = append(work, x)
+			case *ssa.Store:
+				if x.Val != cur {
+					continue
+				}
+				al, ok := x.Addr.(*ssa.Alloc)
+				if !ok {
+					continue
+				}
+				only := true
+				for _, r2 := range *al.Referrers() {
+					if s2, isSt := r2.(*ssa.Store); isSt && s2.Addr == ssa.Value(al) && s2 != x {
+						only = false
+					}
+				}
+				if !only {
+					continue
+				}
+				for _, r2 := range *al.Referrers() {
+					if ld, isLd := r2.(*ssa.UnOp); isLd && ld.Op == token.MUL {
+						work = append(work, ld)
+					}
 				}
 			}
 		}
